@@ -98,6 +98,8 @@ def process_top(job):
                 xc['samples'] += 1
                 if r.get('status') != 'proved' or 'cex' not in r:
                     xc['no-model'] += 1
+                    if os.environ.get('PYVC_XCHECK_DEBUG'):
+                        print(f"xcheck {key}: no-model: {r.get('status')} {str(r.get('detail'))[:300]} {r.get('cex_error')}", file=sys.stderr)
                     continue
                 try:
                     rr = R.run_native(top, C.REG, r['cex'])
@@ -107,6 +109,10 @@ def process_top(job):
                 if oc == 'violated' and all(str(f).startswith(('exc#AttributeError', 'exc#TypeError', 'exc#NameError')) for f in rr.get('failed') or ['x']):
                     oc = 'error'  # only witnesses the stub environment (same rule as replay.confirms)
                 xc[oc] = xc.get(oc, 0) + 1
+                if os.environ.get('PYVC_XCHECK_DEBUG') and oc != 'held':
+                    print(f'xcheck {key}: {oc}: {rr.get("detail") or rr.get("failed")} {rr.get("exception") or ""}', file=sys.stderr)
+                    if os.environ.get('PYVC_XCHECK_DEBUG') == '2':
+                        print('   state:', json.dumps(R.to_jsonable(r['cex']))[:3000], file=sys.stderr)
                 if oc == 'violated' and len(xc['failed']) < 3:
                     xc['failed'].append({'failed': rr.get('failed'), 'state': R.to_jsonable(r['cex']), 'exception': rr.get('exception')})
                 continue
